@@ -61,6 +61,8 @@ def cases(ctx):
         for fast in (False, True):
             for pname, prog in P:
                 for w in progs.words(sigma, n):
+                    if ctx.quick and 'FLAT' in w and not (fast and kind == 'futures'):
+                        continue        # quick: words with a flat minute only where they matter most (intra-chunk gaps of the fast simulator)
                     yield (w, pname, prog, kind, fast, emb)
     # two symbols sharing one wallet (second one on the mirrored word), and a 5-minute fast chunk
     P = progs.programs(emb[1], emb[2], 'futures')
@@ -72,6 +74,12 @@ def cases(ctx):
     for i, (pname, prog) in enumerate(P):
         for w in progs.words(sigma, n - 1 if ctx.quick else n):
             yield (w, pname, prog, 'futures', True, emb, None, 5)
+    # micro-priced and very expensive symbols (reduced word length)
+    for sc in core.SCALES:
+        for pname, prog in progs.programs(sc[1], sc[2], 'futures'):
+            for fast in (False, True):
+                for w in progs.words(sigma, n - 2 if ctx.quick else n - 1):
+                    yield (w, pname, prog, 'futures', fast, sc)
 
 
 def run(ctx):
